@@ -17,7 +17,7 @@ import (
 // original string, increase, do not overlap and cover every non-space rune.
 
 func TestVerif(t *testing.T) {
-	vrep.Main(t, "github.com/google/licenseclassifier/stringclassifier/searchset/tokenizer", map[string]vrep.Harness{"c17_tokens": c17Tokens})
+	vrep.Main(t, "github.com/google/licenseclassifier/stringclassifier/searchset/tokenizer", map[string]vrep.Harness{"c17_tokens": c17Tokens, "c17_longwords": c17LongWords})
 }
 
 func c17Check(s string) string {
@@ -122,4 +122,48 @@ func c17Min(s string) string {
 		}
 	}
 	return s
+}
+
+// c17LongWords: ONE long word (no blank, no punctuation) of every length: an ASCII lead of 0..3
+// bytes, then a 1-, 2-, 3- or 4-byte letter repeated 0..N times, optionally followed by another
+// word; the same oracle.
+func c17LongWords(c *vrep.Ctx) {
+	letters := []string{"a", "\u00e9", "\u4e16", "\U00020000"}
+	maxRep := c.Pick(700, 20000)
+	tails := []string{"", " b", ",b"}
+	c.R.Rule = fmt.Sprintf("single words: ASCII lead of 0..3 bytes + a 1/2/3/4-byte letter repeated EVERY count 0..%d (thorough: and around 2^12..2^16 bytes) + tail in %q; oracle as c17_tokens; non-trivial = all cases", 700, tails)
+	c.Bound("max_repetitions", maxRep)
+	var counts []int
+	for n := 0; n <= 700; n++ {
+		counts = append(counts, n)
+	}
+	if c.Thorough() {
+		for _, b := range []int{1024, 4096, 16384, 65536} {
+			for d := -4; d <= 4; d++ {
+				for _, w := range []int{1, 2, 3, 4} {
+					counts = append(counts, (b+d)/w)
+				}
+			}
+		}
+	}
+	body := func(r *vx.Run) {
+		lead := r.Choose(4, "lead")
+		li := r.Choose(len(letters), "letter")
+		ti := r.Choose(len(tails), "tail")
+		if r.Scout() {
+			return
+		}
+		n := counts[r.Choose(len(counts), "count")]
+		s := strings.Repeat("x", lead) + strings.Repeat(letters[li], n) + tails[ti]
+		r.Note = map[string]interface{}{"id": fmt.Sprintf("lead %d, %d x %q, tail %q", lead, n, letters[li], tails[ti]), "msg": c17Check(s)}
+	}
+	e := c.Explorer(0)
+	e.SplitDepth = 3
+	c.Run(e, body, func(r *vx.Run) {
+		c.R.Nontrivial++
+		if m := r.Note["msg"].(string); m != "" {
+			id := r.Note["id"].(string)
+			c.Violate("c17_longwords:"+strings.ReplaceAll(id, " ", "_"), id+": "+m, r, m)
+		}
+	})
 }
